@@ -475,6 +475,42 @@ Definition linearizable_by_arrival (s : dram) : Prop :=
                 commit_read (cf s) (mem_of (cf s) (firstn k (g_deliv s))) r = Some (m_data m)))
             (g_retr s ++ top_out s) ks.
 
+(** ** Well-formed configurations and traffic (hypotheses of the no-panic and
+    liveness theorems).  They also state the range in which the unbounded
+    arithmetic of this model coincides with Go's uint64 arithmetic: no address
+    computation wraps around. *)
+Definition two64 : N := 18446744073709551616.
+
+Definition req_len (r : msg) : N :=
+  match m_kind r with KRead => m_size r | _ => N.of_nat (length (m_data r)) end.
+
+Definition ilv_fits (o : option ilv) : bool :=
+  match o with
+  | None => true
+  | Some cv => (il_size cv * il_total cv <? two64) && (il_offset cv <? two64)
+  end.
+
+(** accepted by the builder, interleave size representable, nothing wraps *)
+Definition wf_cfg (c : cfg) : bool :=
+  cfg_ok c && (c_log2ilv c <? 64) && (c_capacity c + unit_size <? two64) &&
+  ilv_fits (c_aconv c) && ilv_fits (c_bconv c).
+
+(** a read or write request from a real requester, inside the storage, accepted
+    by the address converters, with a mask that is absent or covers the data,
+    and whose byte range does not wrap *)
+Definition wf_req (c : cfg) (r : msg) : bool :=
+  is_access r && negb (m_src r =? 0) && negb (m_src r =? P_TOP) &&
+  match saddr c r with
+  | Some a => negb (oob (c_capacity c) a (req_len r))
+  | None => false
+  end &&
+  match bank_addr c r with Some _ => true | None => false end &&
+  match m_mask r with [] => true | mk => Nat.leb (length (m_data r)) (length mk) end &&
+  (m_addr r + req_len r <=? two64).
+
+Definition wf_ev (c : cfg) (e : ev) : bool :=
+  match e with EDeliver m => wf_req c m | _ => true end.
+
 (** ** Correspondence: compare a recorded history of the implementation *)
 Definition obs_eqb (a b : obs) : bool :=
   match a, b with
